@@ -233,4 +233,6 @@ def run(tier):
     lints.length_is_boolean(chk, ['src/rsa/'])
     from .. import lints as _l
     _l.limb_split_consistent(chk, ['src/rsa/'])
+    from .. import siblings as _sib
+    _sib.check(chk, ['src/rsa/'], floor=10)
     return chk.finish()
